@@ -168,7 +168,7 @@ def run_one(mod: Any, drv: Any, case: Dict[str, Any]) -> Dict[str, Any]:
     """Evaluate one case: impl, model, comparison, Lean spec check on impl output, Python oracle."""
     res: Dict[str, Any] = {"status": "ok", "diffs": [], "violations": []}
     obs = mod.observe(case)
-    res["obs_digest"] = digest(obs.get("canon"))
+    res["obs_digest"] = digest([obs.get("canon"), obs.get("rows"), obs.get("key")])
     if hasattr(mod, "in_domain") and not mod.in_domain(case, obs):
         # outside the property's quantifier (judged on what was actually loaded): not counted
         res["status"] = "skipped"
